@@ -10,7 +10,12 @@
                | [5; seed; es; ranker; b] GradientArborescence
       es = 0 cma | 1 sep-cma | 2 lm-ma | 3 openai (mirror) | 4 openai (no mirror) | 5 pycma ;  ranker = 0 imp 1 2imp 2 obj 3 2obj 4 rd 5 2rd 6 nov 7 density
     output: [1; [[component; role; entropy; spawn_key; cursor] ...]] in creation order, or [0] when [build] fails (dangling SeedSequence index);
-            role = 0 archive 1 emitter 2 operator 3 optimizer 4 ranker 5 third-party sampler (seeded with the same seed, no numpy Generator object) *)
+            role = 0 archive 1 emitter 2 operator 3 optimizer 4 ranker 5 third-party sampler (seeded with the same seed, no numpy Generator object)
+    With a fourth element [history] the footprints are evaluated as well:
+      op = [0; empty; active; extra] Scheduler.ask / BanditScheduler.ask | [1; empty] ask_dqd | [2; restarted] tell | [3] tell_dqd
+         | [4; n; empty] sample_elites(n) | [5; iters; pts] cqd_score
+    output: [1; table; [[[component; role] ...] ...]] -- per op, the generators the compiled program draws a positive number of
+            variates from (in program order, duplicates kept). *)
 From Coq Require Import List ZArith Bool.
 From PV Require Import Base.ListUtil Model.Sx Model.Rng.
 Import ListNotations.
@@ -102,8 +107,49 @@ Definition etagged (t : tagged) : sx :=
   let '(c, r, g) := t in
   SL [enat c; erole r; SZ (fst (g_sid g)); elist enat (snd (g_sid g)); SZ (g_pos g)].
 
+Definition dpop (s : sx) : option pop :=
+  match s with
+  | SL [SZ 0; e; act; ex] =>
+      match dbool e, dlist dbool act, dlist dz ex with
+      | Some e', Some act', Some ex' => Some (PAsk e' act' ex')
+      | _, _, _ => None
+      end
+  | SL [SZ 1; e] => option_map PAskDqd (dbool e)
+  | SL [SZ 2; r] => option_map PTell (dlist dbool r)
+  | SL [SZ 3] => Some PTellDqd
+  | SL [SZ 4; SZ n; e] => option_map (PSample n) (dbool e)
+  | SL [SZ 5; SZ i; SZ p] => Some (PCqd i p)
+  | _ => None
+  end.
+
+(** the owned generators a compiled pyribs call really draws from *)
+Definition drawn (ow : list (nat * role)) (o : op) : sx :=
+  match o with
+  | Py p =>
+      SL (flat_map (fun c => match c with
+                             | Draw (Own i) n =>
+                                 if 0 <? n then match nth_error ow i with
+                                                | Some (c', r) => [SL [enat c'; erole r]]
+                                                | None => [SL [SZ (-1); SZ (-1)]]
+                                                end
+                                 else []
+                             | Draw _ _ => [SL [SZ (-2); SZ (-2)]]
+                             end) p)
+  | _ => SL []
+  end.
+
 Definition run_C09 (s : sx) : sx :=
   match s with
+  | SL [sq; a; es; hs] =>
+      do seqs <- dlist dseqid sq;
+      do arch <- darchive a;
+      do ems <- dlist demitter es;
+      do h <- dlist dpop hs;
+      let cfg := mkConfig seqs arch ems in
+      match build cfg with
+      | Some t => SL [SZ 1; elist etagged t; SL (map (fun o => drawn (owners t) (compile cfg (owners t) o)) h)]
+      | None => SL [SZ 0]
+      end
   | SL [sq; a; es] =>
       do seqs <- dlist dseqid sq;
       do arch <- darchive a;
